@@ -341,9 +341,45 @@ def run_impl(binary, requests, seq=False, timeout=3600, deadline_ms=20000, worke
     if lines and lines[-1] == "":
         lines.pop()
     if len(lines) != len(requests):
-        raise RuntimeError(f"harness returned {len(lines)} lines for {len(requests)} requests; rc={p.returncode} "
-                           f"stderr={p.stderr[-800:]}")
+        if p.returncode == 0:
+            raise RuntimeError(f"harness returned {len(lines)} lines for {len(requests)} requests; rc={p.returncode} "
+                               f"stderr={p.stderr[-800:]}")
+        # the harness process died (a Go fatal error — concurrent map access, stack overflow, out of memory — cannot
+        # be recovered inside the process): isolate the requests that kill it and report them as abnormal results
+        return _isolate_crash(cmd, requests, timeout, p.stderr[-1500:])
     return [json.loads(l) for l in lines]
+
+
+def _isolate_crash(cmd, requests, timeout, stderr_tail, depth=0):
+    """bisect a batch whose process died; a request (or group of requests) that kills the process gets
+    {"panic": "process died: ..."} (no "r"), the others their normal results"""
+    def attempt(reqs):
+        data = "\n".join(json.dumps(r, separators=(",", ":")) for r in reqs) + "\n"
+        q = subprocess.run(cmd, input=data, stdout=subprocess.PIPE, stderr=subprocess.PIPE, text=True, timeout=timeout)
+        ls = q.stdout.split("\n")
+        if ls and ls[-1] == "":
+            ls.pop()
+        if len(ls) == len(reqs):
+            return [json.loads(l) for l in ls], None
+        return None, q.stderr[-1500:]
+    died = {"panic": "process died: " + stderr_tail[-600:], "timeout": None, "fatal": True}
+    if len(requests) == 1 or depth > 14:
+        return [dict(died) for _ in requests]
+    mid = len(requests) // 2
+    out = []
+    any_fatal = False
+    for part in (requests[:mid], requests[mid:]):
+        res, err = attempt(part)
+        if res is None:
+            res = _isolate_crash(cmd, part, timeout, err, depth + 1)
+            any_fatal = True
+        out.extend(res)
+    if not any_fatal:
+        # each half survives alone: the crash needs requests of both halves in one process (shared state)
+        d = dict(died)
+        d["panic"] = "process died when these requests ran in one process (each half alone survives): " + stderr_tail[-500:]
+        return [dict(d) for _ in requests]
+    return out
 
 
 # ---------------------------------------------------------------------------------------------
